@@ -179,8 +179,9 @@ ENC_DIR = "/repo/filters/encrypt"
 PROPS["C16"] = dict(
     level="other",
     explanation="Filter.encrypt, Filter.hmacSha256, Rotate, the rotation-payload branch of Process, NewEventWrapper, NewDerivedReader and derivedKeyId executed symbolically with every cryptographic leaf (aead.Wrapper Encrypt/KeyBytes/KeyId, hkdf.New, io.ReadFull of the derived reader, hmac, ed25519.GenerateKey, proto.Marshal, base64) an uninterpreted deterministic function of its inputs: the output must be exactly enc / HMAC under the wrapper, salt and info in force (per-event values first), Rotate / rotation payloads install the new material (copied, not aliased) and the next value uses it; the per-event wrapper is a function of (filter wrapper key, event id) only.",
-    jobs=[dict(dir=ENC_DIR, harness=ENC_H, entries=r"^H_C16_", params=dict(quick={}, thorough={}), shards=dict(quick=4, thorough=8))],
-    must_reach=["C16.encrypt.ok", "C16.encrypt.rejected", "C16.hmac.ok", "C16.hmac.rejected", "C16.rotate.end", "C16.eventwrapper.ok", "C16.eventwrapper.rejected"],
+    jobs=[dict(dir=ENC_DIR, harness=ENC_H, entries=r"^H_C16_(encrypt|hmac|rotate|event_wrapper)$", params=dict(quick={}, thorough={}), shards=dict(quick=4, thorough=8)),
+          dict(dir=ENC_DIR, harness=ENC_H, entries=r"^H_C16_process_vs_rotate$", params=dict(quick={}, thorough={}), shards=dict(quick=4, thorough=8), maxswitches=dict(quick=3, thorough=5), instrument_locks=True)],
+    must_reach=["C16.encrypt.ok", "C16.encrypt.rejected", "C16.hmac.ok", "C16.hmac.rejected", "C16.rotate.end", "C16.eventwrapper.ok", "C16.eventwrapper.rejected", "C16.rotation.end"],
     bounds=dict(quick="salt/info nil or 0..2 arbitrary bytes; data any string", thorough="same"),
     assumptions=["AES-GCM decrypts to the plaintext, HKDF and HMAC-SHA256 compute the standard functions, ed25519 key derivation: trusted primitives (uninterpreted)", "concurrent rotation: see the lockset/interleaving jobs"],
     trusted_base=COMMON_TRUST + ["engine/symex/cryptomodel.go contracts"],
